@@ -23,9 +23,7 @@ type Ctx struct {
 	realOnce bool
 	real     *core.Prog
 	realErr  error
-	cOnce    bool
-	cfacts   *CFacts
-	cErr     error
+	cfCache  map[string]*CFacts
 }
 
 // Real returns package control type-checked without the stub tag (the real
